@@ -26,6 +26,8 @@
 #include <AIToolbox/MDP/Algorithms/RLearning.hpp>
 #include <AIToolbox/MDP/Model.hpp>
 #include <AIToolbox/MDP/SparseModel.hpp>
+#include <AIToolbox/MDP/Experience.hpp>
+#include <AIToolbox/MDP/MaximumLikelihoodModel.hpp>
 #include <boost/multi_array.hpp>
 #include <algorithm>
 
@@ -532,6 +534,73 @@ static void case_ps(Rng & rng, const std::string & tier, int kind = -1, int step
     else { PlainModel pm{model, &g_R3}; run_ps(rng, pm, model, "generic", sw); }
 }
 
+// ---------------------------------------------------------------- PrioritizedSweeping over MaximumLikelihoodModel<Experience> (its usual client)
+// The planner keeps a REFERENCE to a model that is re-synced from growing experience.  The MDP handed to the driver is computed by the
+// harness from its own bookkeeping of what was recorded (counts / totals, mean rewards; unvisited pairs: self-loop, reward 0), never read
+// back from the library: a wrong Experience::record / getVisitsSum / getReward or MaximumLikelihoodModel::sync shows up as a planner
+// whose drained table is not the Bellman fixed point of the recorded MDP.
+static void case_psmlm(Rng & rng, const std::string & tier) {
+    (void)tier;
+    size_t S = (size_t)rng.range(2, 4), A = (size_t)rng.range(1, 3);
+    double g = pickD(rng, {0.5, 0.75, 0.875, 0.5});
+    M::Experience exp(S, A);
+    M::MaximumLikelihoodModel<M::Experience> model(exp, g, false);
+    std::vector<double> cnt(S * A * S, 0.0), rsum(S * A, 0.0), tot(S * A, 0.0);
+    bool incremental = false;
+    auto recordSome = [&](bool second) {
+        for (size_t s = 0; s < S; ++s) for (size_t a = 0; a < A; ++a) {
+            size_t i = s * A + a;
+            // totals stay powers of two, rewards multiples of 1/4: transition probabilities and mean rewards are dyadic
+            int add = second ? (tot[i] == 0.0 ? (int)rng.pick(std::vector<int>{0, 2, 4}) : (rng.coin() ? (int)tot[i] : 0)) : (int)rng.pick(std::vector<int>{0, 1, 2, 4, 8, 4});
+            for (int k = 0; k < add; ++k) {
+                size_t s1 = rng.below(S); double r = (double)rng.range(-8, 8) / 4;
+                exp.record(s, a, s1, r);
+                cnt[i * S + s1] += 1; rsum[i] += r; tot[i] += 1;
+                if (incremental) model.sync(s, a, s1);
+            }
+        }
+        if (!incremental) model.sync();
+    };
+    auto putSpec = [&](Line & o) {
+        for (size_t s = 0; s < S; ++s) for (size_t a = 0; a < A; ++a) for (size_t s1 = 0; s1 < S; ++s1) {
+            size_t i = s * A + a;
+            o << (tot[i] == 0.0 ? (s1 == s ? 1.0 : 0.0) : cnt[i * S + s1] / tot[i]);
+        }
+        for (size_t s = 0; s < S; ++s) for (size_t a = 0; a < A; ++a) { size_t i = s * A + a; o << (tot[i] == 0.0 ? 0.0 : rsum[i] / tot[i]); }
+    };
+    recordSome(false);
+    double theta = std::ldexp(1.0, -40);
+    M::PrioritizedSweeping<M::MaximumLikelihoodModel<M::Experience>> ps(model, theta, 64);
+    Line l; l << "C11" << "ps" << "mlm" << S << A << g << theta;
+    putSpec(l);
+    for (size_t i = 0; i < S * A * S; ++i) l << 0.0;          // 3-argument rewards: unused for Eigen models
+    Line ops; size_t nops = 0;
+    // phase 1: some backups on the first model (queue may stay non-empty)
+    int n1 = (int)rng.range(0, (long)(S * A));
+    for (int k = 0; k < n1; ++k) { size_t s = rng.below(S), a = rng.below(A); ps.stepUpdateQ(s, a); ops << 1 << s << a; ++nops; if (rng.coin(1, 3)) ps.batchUpdateQ(); }
+    // the experience grows, the model is re-synced under the planner (all at once, or incrementally after every record)
+    incremental = rng.coin();
+    recordSome(true);
+    ops << 3; putSpec(ops); ++nops;
+    // phase 2: every pair backed up on the final model, then drain
+    std::vector<std::pair<size_t, size_t>> order;
+    for (size_t s = 0; s < S; ++s) for (size_t a = 0; a < A; ++a) order.emplace_back(s, a);
+    for (size_t i = order.size(); i > 1; --i) std::swap(order[i - 1], order[rng.below(i)]);
+    for (auto [s, a] : order) { ps.stepUpdateQ(s, a); ops << 1 << s << a; ++nops; if (rng.coin(1, 3)) ps.batchUpdateQ(); }
+    long guard = 0;
+    while (ps.getQueueLength() > 0 && guard++ < 200000) ps.batchUpdateQ();
+    M::ValueIteration vi(2000, 0.0);
+    auto [bound, vf, viQ] = vi(model);
+    (void)bound; (void)vf;
+    l << nops << ops.os.str() << "|";
+    putTable(l, ps.getQFunction());
+    for (size_t s = 0; s < S; ++s) l << ps.getValueFunction().values[s];
+    l << (size_t)ps.getQueueLength();
+    putTable(l, viQ);
+    l.emit();
+    std::printf("#stat ps-mlm%s 1\n", incremental ? "-incremental-sync" : "-full-sync");
+}
+
 // ---------------------------------------------------------------- DynaQ batch
 struct DetModel {
     size_t S, A; double g; std::vector<std::vector<size_t>> next; AI::Matrix2D rew;
@@ -769,7 +838,7 @@ void verif::verif_case(Rng & rng, long idx, const std::string & tier) {
     else if (k == 33) case_td(rng, ESARSA_, rng.coin() ? 2 : 1, tier, nullptr, (int)rng.range(1, 2));
     else if (k < 37) case_tr(rng, rng.pick(std::vector<TR>{CRETRACE, CIS, EQL, ERETRACE, ETB, EIS}), tier, nullptr, true, false, true);
     else if (k == 37) case_dynam(rng, tier);
-    else if (k == 38) { if (rng.coin()) case_dyna2(rng, tier); else case_dynam(rng, tier); }
+    else if (k == 38) { if (rng.coin()) case_dyna2(rng, tier); else case_psmlm(rng, tier); }
     else case_rl(rng, tier);
 }
 
